@@ -40,7 +40,8 @@ PROBES = [
     "torn_write_left_partial_file", "four_slots", "construct_raised_both",
     "export_raised_both", "mixed_directions", "labella_options_differ",
     "export_multilayer", "export_ge_3_layers", "export_with_lineSpacing",
-    "abort_inside_export", "abort_inside_construct",
+    "abort_inside_export", "abort_inside_construct", "peer_failed_inside_construct",
+    "export_to_path_written_before",
 ]
 
 RULE = (
@@ -238,9 +239,15 @@ def gen_plan(rng, tier):
                         "exc": rng.choice(["SimAbort", "MemoryError", "KeyboardInterrupt"])}
             return None
 
+        def peer_construct_fault(spec):
+            measured = any(("text" in it and "width" not in it) for it in spec["items"])
+            if swarm["faults"]["peer"] and measured and rng.random() < 0.3:
+                return {"kind": rng.choice(["peer_exit", "peer_missing"])}
+            return None
+
         if not constructed[i]:
             if r < 0.8:
-                f = abort_fault(0.08)
+                f = abort_fault(0.08) or peer_construct_fault(slots[i])
                 ops.append(["construct", i] + ([f] if f else []))
                 constructed[i] = f is None
             continue
@@ -250,6 +257,9 @@ def gen_plan(rng, tier):
         elif r < 0.65:
             nfile += 1
             ext = ".svg" if slots[i]["backend"] == "svg" else ".tex"
+            # few distinct paths per slot, so that retries and re-exports hit a
+            # path that was written (or half written) before
+            fileno = rng.choice([1, 1, 2])
             fault = None
             is_tex = slots[i]["backend"] == "tex"
             build_pdf = rng.random() < 0.6
@@ -262,7 +272,7 @@ def gen_plan(rng, tier):
                 fault = abort_fault(1.0)
             if fault and fault["kind"] in ("disk_copy", "peer_exit", "peer_missing"):
                 build_pdf = True  # place the fault inside an operation that reaches the peer
-            ops.append(["export_file", i, "/simfs/out%d_%d%s" % (i, nfile, ext), build_pdf, fault])
+            ops.append(["export_file", i, "/simfs/out%d_%d%s" % (i, fileno, ext), build_pdf, fault])
         elif r < 0.75:
             ops.append(["construct", i])  # a new object from the same spec
         elif r < 0.85:
@@ -370,7 +380,9 @@ def _do_export(tl, spec, fs, op):
         path = op[2]
         out["file"] = _text(fs.files[path]) if path in fs.files else None
         pdf = path[: path.rfind(".")] + ".pdf"
-        out["pdf"] = fs.files.get(pdf)
+        # a pdf is an outcome of this op only if this op builds one (an older
+        # pdf next to a re-used path is residue of an earlier op, not of this one)
+        out["pdf"] = fs.files.get(pdf) if (spec["backend"] == "tex" and op[3]) else None
     return out
 
 
@@ -424,6 +436,28 @@ def _run(plan):
                 bump("probe:reconstruct_same_spec")
             cfault = op[2] if len(op) > 2 and op[2] else None
             c_faulted = False
+            if cfault and cfault["kind"].startswith("peer"):
+                bump("fault:peer_fail:configured")
+                peer.arm("exit" if cfault["kind"] == "peer_exit" else "missing")
+                nfp = len(peer.fired)
+                r0 = len(clock.readings)
+                try:
+                    obj = _construct(spec)
+                    c_out = "ok"
+                except Exception as e:
+                    obj = None
+                    c_out = "raise:" + type(e).__name__
+                peer.disarm()
+                if len(peer.fired) > nfp:
+                    bump("fault:peer_fail:fired")
+                    bump("probe:peer_failed_inside_construct")
+                    objs[i] = None
+                    for j in range(n):
+                        if j != i and objs[j] is not None:
+                            foreign[j] += 1
+                    log.append([step, kind, i, "peer_failed:" + c_out])
+                    continue
+                cfault = None  # the peer was never reached: an ordinary construction (done again below)
             if cfault:
                 bump("fault:abort:configured")
                 obj, tr = _traced(cfault, lambda: _construct(spec), lambda: _construct(spec))
@@ -509,6 +543,8 @@ def _run(plan):
                     elif fk == "peer_missing":
                         peer.arm("missing")
                     bump("fault:%s:configured" % ("peer_fail" if fk.startswith("peer") else "disk_error"))
+                if kind == "export_file" and op[2] in fs.files:
+                    bump("probe:export_to_path_written_before")
                 nf_fs, nf_peer = len(fs.fired), len(peer.fired)
                 if afault:
                     bump("fault:abort:configured")
@@ -703,12 +739,13 @@ def execute(plan):
         want, got = ref["result"], ev["result"]
         if want["ret"][0] == "raise" and got["ret"] == want["ret"]:
             counters["probe:export_raised_both"] = counters.get("probe:export_raised_both", 0) + 1
-        if got != want and not violations:
-            which = "ret"
-            for k in ("ret", "file", "pdf"):
-                if got.get(k) != want.get(k):
-                    which = k
-                    break
+        # files are an outcome of this op only when the export completed; after an
+        # export that raised (alone and here alike) whatever lies at a re-used
+        # path is residue of earlier ops
+        keys = ("ret", "file", "pdf") if (want["ret"][0] == "ok" and got["ret"][0] == "ok") else ("ret",)
+        differs = [k for k in keys if got.get(k) != want.get(k)]
+        if differs and not violations:
+            which = differs[0]
             if which == "ret":
                 d = _first_diff(want["ret"][1] if want["ret"][0] == "ok" else str(want["ret"]),
                                 got["ret"][1] if got["ret"][0] == "ok" else str(got["ret"]))
